@@ -689,6 +689,8 @@ def b_zip(ip, st, *xs, strict=False):
 
 def b_reversed(ip, st, x):
     v = ip.iter_view(st, st.force(x))
+    if isinstance(v, LRef) and isinstance(v.seq, tuple):
+        v = v.seq
     n = Q.seq_len(v)
     if isinstance(v, tuple):
         return tuple(reversed(v))
